@@ -10,6 +10,7 @@ CONSTANTS
   FineTime = FALSE
   SlowWrites = FALSE
   SlowRtx = "write"
+  IgnoreToo = FALSE
   FailAts = {0}
   MaxDepth = 7
 CONSTRAINT DepthBound
